@@ -34,7 +34,9 @@ SEGS = ['a', 'a?b', '#', '%', '%41', 'a b', 'a;b=c', 'a&b=c', u'\xe9', '.', '..'
 SEGS2 = ['a', 'a?b', '%41']
 QUERIES = ['', 'x=1', 'x=%3F&y=a+b', u'\xe9=1'.encode('utf-8').decode('latin-1'), u'\xe9=1', 'a=%C3%A9&&b']
 ALL_METHODS = ['GET', 'HEAD', 'POST', 'PUT', 'DELETE', 'OPTIONS', 'TRACE', 'CONNECT', 'PATCH']
-SHAPES = ['static', 'single', 'multi', 'typed', 'dotted', 'root', 'file']
+SHAPES = ['static', 'single', 'multi', 'typed', 'dotted', 'root', 'file', 'twin']
+# twin: like single, but the route is preceded by its opposite twin (the leaf '/x/<a>' in front of the branch '/x/<a>/'
+# and the other way round) which admits CONNECT only - passed over by every other request
 # file: a StaticFileRoute (the stock route type serving one file) under a leaf or a branch pattern
 # root: the pattern '/' of an embedded application - under the prefix it is the branch route '/pre/'
 # dotted: a literal segment containing a regular-expression metacharacter.  Whether '/x/v1-0' reaches the route
@@ -52,7 +54,7 @@ def deadline_passed():
 def pattern_for(shape, branch):
     if shape == 'root':
         return '/'
-    base = {'static': '/x', 'file': '/x', 'single': '/x/<a>', 'multi': '/x/<a+>', 'typed': '/n/<k:int>/t', 'dotted': '/x/v1.0'}[shape]
+    base = {'static': '/x', 'file': '/x', 'twin': '/x/<a>', 'single': '/x/<a>', 'multi': '/x/<a+>', 'typed': '/n/<k:int>/t', 'dotted': '/x/v1.0'}[shape]
     return base + ('/' if branch else '')
 
 
@@ -61,7 +63,7 @@ def seg_tuples(shape, tier):
         return [[]]
     if shape in ('static', 'file'):
         return [['x']]
-    if shape == 'single':
+    if shape in ('single', 'twin'):
         return [['x', s] for s in SEGS]
     if shape == 'typed':
         return [['n', '7', 't'], ['n', '-3', 't']]
@@ -129,7 +131,7 @@ class Harness(object):
         def ep_k(k):
             seen.append({'k': k})
             return Response(json.dumps({'k': k}))
-        self.eps = {'static': ep_static, 'single': ep_a, 'multi': ep_a, 'typed': ep_k, 'dotted': ep_static, 'root': ep_static}
+        self.eps = {'static': ep_static, 'twin': ep_a, 'single': ep_a, 'multi': ep_a, 'typed': ep_k, 'dotted': ep_static, 'root': ep_static}
 
     def build(self, cfg):
         from clastic import Application, Route, SubApplication
@@ -148,27 +150,33 @@ class Harness(object):
                     seen.append({})
                     return super(TracedFile, self).get_file_response(request)
             mkroute = lambda pat, ep, methods=None: TracedFile(pat, os.path.abspath(__file__))
+        twin_pat = ('/x/<a>' if branch else '/x/<a>/') if shape == 'twin' else None
+        front = [Route(twin_pat, ep, methods=['CONNECT'])] if twin_pat else []
         if placement == 'app':
             # the Route object has been bound before, into an application with another slash mode
             rt = mkroute(pat, ep, methods=methods)
             Application([rt], slash_mode=other)
             Application([('/', Application([rt], slash_mode=MODES[(MODES.index(cfg[2]) + 2) % 3]))], slash_mode=other)
-            return Application([rt], slash_mode=mode), ''
+            return Application(front + [rt], slash_mode=mode), ''
         if placement == 'route':
             app = Application([], slash_mode=other)
+            if twin_pat:
+                app.add(Route(twin_pat, ep, methods=['CONNECT'], slash_mode=mode), inherit_slashes=False)
             app.add(Route(pat, ep, methods=methods, slash_mode=mode), inherit_slashes=False)
             return app, ''
         if placement == 'cline':
             # the bottle-like spelling: Cline(slash_mode=...) and its route() method
             from clastic.cline import Cline
             app = Cline(slash_mode=mode, autorender=False)
+            if twin_pat:
+                app.route(twin_pat, ('CONNECT',), ep)
             app.route(pat, tuple(methods) if methods else None, ep)
             return app, ''
         if placement == 'embed-inherit':
-            inner = Application([mkroute(pat, ep, methods=methods)], slash_mode=other)
+            inner = Application(front + [mkroute(pat, ep, methods=methods)], slash_mode=other)
             return Application([('/pre', inner)], slash_mode=mode), '/pre'
         if placement == 'embed-own':
-            inner = Application([mkroute(pat, ep, methods=methods)], slash_mode=mode)
+            inner = Application(front + [mkroute(pat, ep, methods=methods)], slash_mode=mode)
             return Application([SubApplication('/pre', inner, inherit_slashes=False)], slash_mode=other), '/pre'
         raise ValueError(placement)
 
@@ -188,6 +196,8 @@ def expected(cfg, prefix, raw_path, method, literal=None):
     pat = prefix + (pattern_for(shape, branch) if literal is None else '/x/' + literal + ('/' if branch else ''))
     eff = '/' + raw_path.lstrip('/')
     table = [{'pattern': pat, 'methods': methods, 'behaviour': 'answer'}]
+    if shape == 'twin':
+        table.insert(0, {'pattern': prefix + ('/x/<a>' if branch else '/x/<a>/'), 'methods': ['CONNECT'], 'behaviour': 'answer'})
     return D.dispatch(table, mode, eff, method), eff
 
 
